@@ -280,6 +280,24 @@ func c18Plans(seed uint64, quick bool) []c18Plan {
 			add(c18Plan{Family: "persist-drop-eot", Retry: rt, HostActive: rt%2 == 0, Msgs: msgsFor(role, []int{1, 1, 1}, []int{1}), Rules: []c18Rule{de}})
 		}
 	}
+	// E2. a contention yield in which the master's block is lost, inside a run of NAKed transmissions of the host's
+	// own block: the failed yield must not hand the host a fresh retry budget
+	for _, rt := range []int{1, 2, 3} {
+		for _, ecount := range []int{1, 2} {
+			for _, skew := range []int{0, 60, 120, -3} {
+				if quick && (rt == 1 || skew == -3) {
+					continue
+				}
+				hf := rule(roleH, e4mitm.OnBlock, 1, e4mitm.OpFlip)
+				hf.Pos, hf.Mask, hf.Count = 14, 0x21, -1
+				ef := rule(roleE, e4mitm.OnBlock, 1, e4mitm.OpFlip)
+				ef.Pos, ef.Mask, ef.Count = 15, 0x12, ecount
+				p := c18Plan{Family: "failed-yield", Retry: rt, HostActive: (rt+ecount)%2 == 0, Simul: true, Skew: skew, Rules: []c18Rule{hf, ef}}
+				p.Msgs[roleH], p.Msgs[roleE] = []int{1}, []int{1}
+				add(p)
+			}
+		}
+	}
 	// F. contention without any other fault
 	nCont := 32
 	if !quick {
@@ -854,6 +872,10 @@ func c18Judge(env *fw.Env, p *c18Plan, sc *c18Scenario, final bool) {
 		haveCur  bool
 		distinct int // distinct blocks emitted in this generation
 		acks     int // ACK characters handed to this end in this generation
+		// a contention yield is open (this end emitted EOT while its own block was unacknowledged); the counts it
+		// interrupted are kept: the postponed send starts over only if the yield RECEIVED the other end's block
+		yieldOpen                    bool
+		savedPending, savedAttempts int
 	}
 	var st [2]sideState // by mitm side
 	roleOfSide := func(side int) int {
@@ -906,7 +928,22 @@ func c18Judge(env *fw.Env, p *c18Plan, sc *c18Scenario, final bool) {
 			// a yield (or an idle grant): the postponed send starts over as a new request. The block it
 			// re-sends counts as a new distinct block only if it differs from the current one, so give
 			// the ACK bookkeeping the benefit of the doubt.
-			st[ev.From].pending, st[ev.From].attempts = 0, 0
+			s := &st[ev.From]
+			if s.pending > 0 && s.haveCur && s.acks < s.distinct { // its own ENQ is outstanding: a contention yield, not an idle grant
+				s.yieldOpen, s.savedPending, s.savedAttempts = true, s.pending, s.attempts
+			}
+			s.pending, s.attempts = 0, 0
+		case e4mitm.OnACK:
+			st[ev.From].yieldOpen = false // the block taken during the yield was received: the restart stands
+		case e4mitm.OnNAK:
+			// the yield received nothing (lost or corrupted block): it was one more attempt of the postponed block,
+			// not a new beginning (E4 7.8.2.1 restarts the count for a block that was POSTPONED by a completed receive)
+			if s := &st[ev.From]; s.yieldOpen {
+				s.yieldOpen = false
+				s.pending += s.savedPending
+				s.attempts += s.savedAttempts
+				env.Event("failed_contention_yields_seen", 1)
+			}
 		case e4mitm.OnBlock:
 			s := &st[ev.From]
 			if !ev.Valid {
